@@ -48,6 +48,10 @@ def build_file(lang, tag, places, r, style, run_at_end=False):
     ind = "    " if py else "  "
     lines = [f"def handler_{tag}(order, customer, region, state):" if py else
              f"function handler{tag}(order, customer, region, state) {{"]
+    if py and style in ("method", "async-method"):
+        # the statements live in a method of a class (all methods coroutines for async-method)
+        lines = [f"class Service_{tag}:", f"    {'async ' if style == 'async-method' else ''}def handle(self, order, customer, region, state):"]
+        ind = "        "
     occ = []
     uid = 0
     for k, off in enumerate(places):
@@ -103,7 +107,7 @@ def make_h(tier):
         r = ctx.pick("run_length", (1, 2, 3, 4, 6) if quick else (1, 2, 3, 4, 5, 6, 7))
         layout = ctx.pick("layout", ("A+B", "A+A", "A+B+C", "A+A+B", "A-only-once") if quick else
                           ("A+B", "A+A", "A+B+C", "A+A+B", "A-only-once", "A+A+A", "A+B+B+C"))
-        style = ctx.pick("style", ("plain", "indented", "callback", "commented", "commented-late", "spaced", "trailing-comment"))
+        style = ctx.pick("style", ("plain", "indented", "callback", "method", "async-method", "commented", "commented-late", "spaced", "trailing-comment"))
         off = ctx.pick("offset", (0, 1, 3))
         at_end = ctx.flag("run_at_end_of_last_file") if lang == "python" else False
         minocc = ctx.int("min_occurrences", 1)
